@@ -8,6 +8,7 @@ CONSTANTS
   BaseKey = TRUE
   AliasProps = FALSE
   CacheBeforeMember = FALSE
+  NoImportFallback = FALSE
   Faults = FALSE
 INVARIANT PureResults
 INVARIANT KeyInjective
